@@ -31,6 +31,9 @@
 namespace bloc
 {
 
+/* the largest internal buffer allocated to fulfill a request */
+#define READ_BUFFER_MAX 1048576
+
 Value& READExpression::value(Context & ctx) const
 {
   if (!_args[0]->isVarName())
@@ -47,6 +50,9 @@ Value& READExpression::value(Context & ctx) const
     if (a1.isNull() || *a1.integer() < 0)
       throw RuntimeError(EXC_RT_INDEX_RANGE_S, a1.toString().c_str());
     n = *a1.integer();
+    /* the request is a maximum, and it is limited by the internal buffer */
+    if (n > READ_BUFFER_MAX)
+      n = READ_BUFFER_MAX;
   }
 
   if (n > 32)
